@@ -9,13 +9,19 @@ Open Scope list_scope.
 
 Definition files := list (string * tm).
 
-(* the environment in which a member of a recursive group is evaluated *)
-Definition recenv (defs : list (string * tm)) (rho : env) : env :=
-  map (fun p => (fst p, BRec defs rho (fst p))) defs ++ rho.
+(* binding of a member of a recursive group (closurize_rec_record / FieldDeps: a record field
+   that mentions no sibling is a plain closure in the outer environment) *)
+Definition member_binding (a : bool) (defs : list (string * tm)) (rho : env) (p : string * tm)
+  : string * binding :=
+  (fst p, if a || has_deps (map fst defs) (snd p) then BRec a defs rho (fst p) else BClos (snd p) rho).
 
-(* binding of a record-literal field (closurize_rec_record / FieldDeps) *)
+(* the environment in which a member that sees the group is evaluated *)
+Definition recenv (a : bool) (defs : list (string * tm)) (rho : env) : env :=
+  map (member_binding a defs rho) defs ++ rho.
+
+(* binding of a record-literal field *)
 Definition field_binding (fs : list (string * tm)) (rho : env) (p : string * tm) : string * binding :=
-  (fst p, if has_deps (map fst fs) (snd p) then BRec fs rho (fst p) else BClos (snd p) rho).
+  member_binding false fs rho p.
 
 Definition binop_sem (o : binop) (v1 v2 : val) : outcome val :=
   match o, v1, v2 with
@@ -42,9 +48,9 @@ Variable fl : files.
 Definition force_with (ev : env -> tm -> outcome val) (b : binding) : outcome val :=
   match b with
   | BClos e rho => ev rho e
-  | BRec defs rho x =>
+  | BRec a defs rho x =>
       match lookup x defs with
-      | Some e => ev (recenv defs rho) e
+      | Some e => ev (recenv a defs rho) e
       | None => Err UnboundId
       end
   end.
@@ -66,7 +72,7 @@ Fixpoint eval (n : nat) (rho : env) (t : tm) {struct n} : outcome val :=
           | _ => Err NotAFunc
           end)
     | Let x e b => eval n ((x, BClos e rho) :: rho) b
-    | LetRec x e b => eval n ((x, BRec [(x, e)] rho x) :: rho) b
+    | LetRec x e b => eval n ((x, BRec true [(x, e)] rho x) :: rho) b
     | Num z => Ok (VNum z)
     | Str s => Ok (VStr s)
     | Bool b => Ok (VBool b)
